@@ -748,6 +748,13 @@ func linOf(v ssa.Value) Lin {
 			return linAdd(linOf(b.X), linOf(b.Y), 1)
 		case token.SUB:
 			return linAdd(linOf(b.X), linOf(b.Y), -1)
+		case token.MUL:
+			if k, ok := constInt(b.Y); ok {
+				return linScale(linOf(b.X), k)
+			}
+			if k, ok := constInt(b.X); ok {
+				return linScale(linOf(b.Y), k)
+			}
 		}
 	}
 	if cv, ok := v.(*ssa.Convert); ok && intWidth(cv.X.Type()) > 0 && intWidth(cv.Type()) > 0 {
@@ -894,6 +901,13 @@ func sameValue(a, b ssa.Value) bool {
 	a, b = strip(a), strip(b)
 	if a == b {
 		return true
+	}
+	if fa, ok := a.(*ssa.FieldAddr); ok {
+		// two computations of the same field address
+		if fb, ok := b.(*ssa.FieldAddr); ok && fieldOfAddr(fa) == fieldOfAddr(fb) {
+			return sameValue(fa.X, fb.X)
+		}
+		return false
 	}
 	la, oka := a.(*ssa.UnOp)
 	lb, okb := b.(*ssa.UnOp)
@@ -1062,4 +1076,13 @@ func chainTo(v ssa.Value, pred func(ssa.Value) bool) bool {
 		}
 	}
 	return false
+}
+
+
+func linScale(l Lin, k int64) Lin {
+	out := Lin{Terms: map[string]int64{}, K: l.K * k, OK: l.OK}
+	for t, c := range l.Terms {
+		out.Terms[t] = c * k
+	}
+	return out
 }
